@@ -18,7 +18,7 @@ Fixpoint run_queries (uf fuel : nat) (prog : program) (qs : list qspec) (g : glo
       let args' := map (shift k) args in
       match solve uf prog fuel [GCall name args'] [] (set_n g (k + nq)) with
       | None => ([otag "stuck" []], None)
-      | Some (g1, answers, _) =>
+      | Some (g1, answers, _, _) =>
           let (os, gf) := run_queries uf fuel prog r g1 in
           (otag "answers" [OL (map (fun s => args_obs (map (den_fast s) args')) answers)] :: os, gf)
       end
